@@ -169,13 +169,26 @@ fn seq_oracle() -> SeqOracle {
                 }
             }
             Some(e) => {
+                // nothing but the deleted key goes: every other key keeps its entry, its charge and its place in the expiry index
+                for o in b.store.iter().filter(|o| o.0 != k) {
+                    let idx = |s: &Obs| { let mut v: Vec<(usize, u64)> = s.ttl.iter().filter(|t| t.1 == o.2).map(|t| (t.0, t.2)).collect(); v.sort(); v };
+                    if a.entry(o.0) != Some(o) || a.weight_of_id(o.2) != b.weight_of_id(o.2) || idx(a) != idx(b) {
+                        out.push(Finding::new("delete-touched-another-key", "delete:another-key-changed", format!("delete({}) changed key {}: entry {:?} -> {:?}, weight {:?} -> {:?}, expiry index {:?} -> {:?}", k, o.0, o, a.entry(o.0), b.weight_of_id(o.2), a.weight_of_id(o.2), idx(b), idx(a))));
+                    }
+                }
                 if st != Some(CommandStatus::Accepted) {
                     out.push(Finding::new("delete-of-held-key", "delete:held-key-not-accepted", format!("delete({}) of a held key ended with {:?}", k, st.map(|s| status_short(&s)))));
                 }
                 if a.entry(k).is_some() || a.weights.iter().any(|w| w.0 == e.2) || a.ttl.iter().any(|t| t.1 == e.2) {
                     out.push(Finding::new("delete-left-residue", "delete:residue", format!("after delete({}) was acknowledged the cache still holds something of id #{}: {}", k, e.2, a.brief())));
                 }
-                let w = b.weight_of_id(e.2).unwrap_or(0);
+                // the weight the key was accepted with (the alphabet has explicit weights and no weight-changing upserts):
+                // that much must be given back whatever the weight table says about the id by now
+                let put_weight = (0..i).rev().find_map(|j| match (&run.calls[j].op, run.statuses[j]) {
+                    (Op::Put { k: pk, w: Some(w), .. }, Some(CommandStatus::Accepted)) if *pk == k => Some(*w),
+                    _ => None,
+                });
+                let w = put_weight.unwrap_or_else(|| b.weight_of_id(e.2).unwrap_or(0));
                 if a.weight_used != b.weight_used - w {
                     out.push(Finding::new("delete-weight", "delete:weight-not-released", format!("delete({}) of weight {} moved the total from {} to {}", k, w, b.weight_used, a.weight_used)));
                 }
@@ -184,13 +197,14 @@ fn seq_oracle() -> SeqOracle {
     })
 }
 
-fn seq_spec(ctx: &Ctx) -> SeqSpec {
+fn seq_spec(ctx: &Ctx, colliding: bool) -> SeqSpec {
     SeqSpec {
-        name: "seq/delete-in-every-life-cycle-state".into(),
-        setup: Setup { weight: 5, buffer: 64, ..Setup::default() },
+        // colliding: a user-supplied key hash under which every key has the same hash value
+        name: format!("seq/delete-in-every-life-cycle-state{}", if colliding { "/all-keys-one-hash" } else { "" }),
+        setup: Setup { weight: 5, buffer: 64, hash_fn: if colliding { HashFn::Constant(7) } else { HashFn::Identity }, ..Setup::default() },
         world: Default::default(),
         prefix: vec![],
-        alphabet: vec![put(1, 2), put_ttl(1, 3, 1500), del(1), put(2, 4), del(2), put_ttl(2, 1, 1000), adv(1000), adv(2000), Op::TickWait, get(1)],
+        alphabet: vec![put(1, 2), put_ttl(1, 3, 1500), del(1), put(2, 4), del(2), put_ttl(2, 1, 1000), put_ttl(2, 1, 1500), adv(1000), adv(2000), Op::TickWait, get(1)],
         depth: if ctx.quick() { 8 } else { 10 },
         allow: None,
         oracle: seq_oracle(),
@@ -213,7 +227,8 @@ pub fn def(ctx: &Ctx) -> PropertyDef {
                 program_scenario(p, oracle(gone, reput), move |c| crate::harness::ilv::tier_cfg(c, nthreads))
             });
     }
-    scenarios.push(seq_scenario(seq_spec, "seq/delete-in-every-life-cycle-state"));
+    scenarios.push(seq_scenario(|c| seq_spec(c, false), "seq/delete-in-every-life-cycle-state"));
+    scenarios.push(seq_scenario(|c| seq_spec(c, true), "seq/delete-in-every-life-cycle-state/all-keys-one-hash"));
     PropertyDef {
         id: "C04",
         technique: "stateless preemption-bounded model checking of the real code (deleter, readers, worker, sweeper) with a history oracle on step stamps, plus explicit-state BFS over delete in every life-cycle state",
